@@ -89,4 +89,22 @@ theorem lazyGo_exceeds (f : Forest) (rest : List Ev) (l : Int) (hl : 0 ≤ l) (h
         apply ihs _ _ (by omega)
         omega
 
+/-- the frame budget of the descent is linear in the depth of the forest -/
+theorem descendFits_iff (tail : Nat) (f : Forest) (free : Int) :
+    descendFits tail f free = true ↔ (2 * f.depth + tail : Int) ≤ free := by
+  induction f generalizing free with
+  | nil j => simp [descendFits, Forest.depth]
+  | cons j c s ihc ihs =>
+    unfold descendFits
+    simp only [framesPerLevel, Forest.depth]
+    by_cases h : free - ((2 : Nat) : Int) < 0
+    · simp only [h, if_true]
+      constructor
+      · intro x; cases x
+      · intro x; omega
+    · simp only [h, if_false, Bool.and_eq_true, ihc, ihs]
+      constructor
+      · intro ⟨a, b⟩; omega
+      · intro x; constructor <;> omega
+
 end XsVerif.Limits
